@@ -11,7 +11,7 @@ type c05cell struct {
 	Carrier     string // tcp+tls, wss, starttls-tcp, starttls-ws, starttls-udp, starttls-dns, udp-secret
 	ServerCert  string // good, wronghost, untrusted, expired
 	Insecure    bool   // -k
-	ClientCert  string // "", good, foreign
+	ClientCert  string // "", good, foreign, impostor
 	RequireCert bool
 	Secret      string // udp-secret cells: equal, different, absent
 }
@@ -36,7 +36,7 @@ func C05Cells() []c05cell {
 	for _, carrier := range []string{"tcp+tls", "wss", "starttls-tcp", "starttls-ws", "starttls-udp", "starttls-dns"} {
 		for _, sc := range []string{"good", "wronghost", "untrusted", "expired"} {
 			for _, k := range []bool{false, true} {
-				for _, cc := range []string{"", "good", "foreign"} {
+				for _, cc := range []string{"", "good", "foreign", "impostor"} {
 					for _, req := range []bool{false, true} {
 						out = append(out, c05cell{Carrier: carrier, ServerCert: sc, Insecure: k, ClientCert: cc, RequireCert: req})
 					}
